@@ -120,7 +120,10 @@ Expected(st, env) ==
     \* encrypt / keywrap: one LOAD at the stated address; the data are crypto (OTFAD image encryption / RFC 3394 wrap of the key blob), so the
     \* record carries, in place of the bytes, the id of the key blob the data belong to (field x) - the observer determines it independently by
     \* decrypting / unwrapping the loaded bytes with every key blob the program defines
-    [] st.s = "encrypt"          -> Cmd("load", V(st.addr, env), Align512(Len(st.data)), 0, 0, st.kb, -1, <<>>)
+    \* st.act: the key blob's descriptor says "valid and decrypting" (VLD and ADE, the two low bits of its end address; BdProg!KbDom binds the field to the
+    \* definition).  A context that does not decrypt must be fed the data AS THEY ARE: one LOAD of the source bytes, not encrypted, not padded.
+    [] st.s = "encrypt" /\ st.act  -> Cmd("load", V(st.addr, env), Align512(Len(st.data)), 0, 0, st.kb, -1, <<>>)
+    [] st.s = "encrypt" /\ ~st.act -> Cmd("load", V(st.addr, env), Len(st.data), 0, 0, 0, -1, st.data)
     [] st.s = "keywrap"          -> Cmd("load", V(st.addr, env), KeyBlobRecordSize, 0, 0, st.kb, -1, <<>>)
     [] st.s = "keystore_to_nv"   -> Cmd("keystore_to_nv", V(st.addr, env), 0, 0, st.mem, 0, -1, <<>>)
     [] st.s = "keystore_from_nv" -> Cmd("keystore_from_nv", V(st.addr, env), 0, 0, st.mem, 0, -1, <<>>)
